@@ -3,7 +3,7 @@ use std::collections::HashMap;
 use compact_str::{CompactString, ToCompactString};
 use itertools::Itertools;
 
-use crate::ast::{ProcedureKind, TypeAnnotation};
+use crate::ast::ProcedureKind;
 use crate::decorator::Decorator;
 use crate::interpreter::{
     Interpreter, InterpreterResult, InterpreterSettings, Result, RuntimeError, RuntimeErrorKind,
@@ -426,7 +426,7 @@ impl BytecodeInterpreter {
         });
     }
 
-    fn compile_statement(&mut self, stmt: &Statement, typechecker: &TypeChecker) -> Result<()> {
+    fn compile_statement(&mut self, stmt: &Statement) -> Result<()> {
         match stmt {
             Statement::Expression(expr) => {
                 self.compile_expression(expr);
@@ -489,8 +489,9 @@ impl BytecodeInterpreter {
                 name: unit_name,
                 identifier_span: span,
                 decorators,
-                type_annotation,
                 type_scheme,
+                readable_type,
+                ..
             } => {
                 let aliases = decorator::name_and_aliases(unit_name, decorators)
                     .map(|(name, ap)| (name.to_compact_string(), ap))
@@ -502,12 +503,10 @@ impl BytecodeInterpreter {
                         unit_name,
                         UnitMetadata {
                             type_: type_scheme.to_concrete_type(), // Base unit types can never be generic
-                            readable_type: type_annotation
-                                .as_ref()
-                                .map(|a: &TypeAnnotation| a.pretty_print())
-                                .unwrap_or(
-                                    type_scheme.to_readable_type(typechecker.registry(), false),
-                                ),
+                            // Use the readable type that the type checker determined when it
+                            // checked this statement. Computing it here would also list
+                            // dimensions that are only defined later in the same input.
+                            readable_type: readable_type.clone(),
                             aliases,
                             name: decorator::name(decorators).map(CompactString::from),
                             canonical_name: decorator::get_canonical_unit_name(
@@ -540,8 +539,8 @@ impl BytecodeInterpreter {
                 identifier_span: full_span,
                 expr,
                 decorators,
-                type_annotation,
                 type_scheme,
+                readable_type,
                 ..
             } => {
                 let aliases = decorator::name_and_aliases(unit_name, decorators)
@@ -559,10 +558,7 @@ impl BytecodeInterpreter {
                     unit_name,
                     UnitMetadata {
                         type_: type_scheme.to_concrete_type(), // We guarantee that derived-unit definitions do not contain generics, so no TGen(..)s can escape
-                        readable_type: type_annotation
-                            .as_ref()
-                            .map(|a: &TypeAnnotation| a.pretty_print())
-                            .unwrap_or(type_scheme.to_readable_type(typechecker.registry(), false)),
+                        readable_type: readable_type.clone(),
                         aliases,
                         name: decorator::name(decorators).map(CompactString::from),
                         canonical_name: decorator::get_canonical_unit_name(unit_name, decorators),
@@ -721,7 +717,7 @@ impl Interpreter for BytecodeInterpreter {
         typechecker: &TypeChecker,
     ) -> Result<InterpreterResult> {
         for statement in statements {
-            self.compile_statement(statement, typechecker)?;
+            self.compile_statement(statement)?;
         }
 
         self.run(settings, prefix_transformer, typechecker)
